@@ -13,9 +13,7 @@ RULE = ("case = (structure tree with <= N nodes over containers list/dict (plain
         "Packer: all sequences to depth D undeduplicated plus breadth-first search deduplicated on the reference "
         "cache-flag state; distinct = distinct (structure, partition, per-event outcome table) hashes; a case is "
         "trivial when the structure holds no tensor slot")
-RULE_ADDED = ('Added later: dictionary variants (OrderedDict, user subclass with attributes, defaultdict) and a mix'
-              'ed-dtype variant (float32 / float64 / complex128 by alias class, values not representable in the nar'
-              'rower dtype).')
+RULE_ADDED = 'Added later: dictionary variants (OrderedDict, user subclass with attributes, defaultdict) and a mixed-dtype variant (float32 / float64 / complex128 by alias class, values not representable in the narrower dtype). Round 6: shared-storage variant (distinct tensor objects sharing storage, dtype, shape and strides).'
 ASSUMPTIONS = [
     "tensor shapes are drawn from {(), (2,), (2,2)} by alias class index; values are small distinct integers",
     "a constructor called before its getter may raise (documented precondition) or return a correct structure",
